@@ -99,10 +99,15 @@ impl Lit {
     }
     fn invoke(&self) -> String {
         let t = self.text();
-        match self.form % 3 {
+        match self.form % 6 {
             0 => format!("ruint::uint!({t})"),
             1 => format!("ruint::uint!{{ {t} }}"),
-            _ => format!("ruint::uint![{t}]"),
+            2 => format!("ruint::uint![{t}]"),
+            // forwarded through macro_rules fragments: expr / literal fragments reach the proc macro
+            // inside invisible (None-delimited) groups, tt fragments as plain tokens
+            3 => format!("via_expr!({t})"),
+            4 => format!("via_lit!({t})"),
+            _ => format!("via_tt!({t})"),
         }
     }
     fn nontrivial(&self) -> bool {
@@ -155,7 +160,7 @@ fn lit_strategy() -> BoxedStrategy<Lit> {
     (
         (bits, base, 0u8..12, proptest::collection::vec(any::<u64>(), 5), 0usize..4),
         (proptest::collection::vec(any::<u16>(), 0..4), any::<u64>(), any::<bool>(), any::<bool>(), 0u8..8, any::<u16>()),
-        (proptest::collection::vec(0u8..8, 0..=4), 0u8..3),
+        (proptest::collection::vec(0u8..8, 0..=4), 0u8..6),
     )
         .prop_map(|((bits, base, vk, raw, lead0), (us, case_bits, sep, is_b, bad, badpos), (wrap, form))| {
             // digit budget: at most 300 digits
@@ -220,7 +225,7 @@ fn lit_strategy() -> BoxedStrategy<Lit> {
 
 // ------------------------------------------------------------------ programs
 
-const PRELUDE: &str = "#![allow(warnings)]\nuse core::str::FromStr;\nfn id<T>(x: T) -> T { x }\nfn ty<T>(_: &T) -> &'static str { core::any::type_name::<T>() }\n";
+const PRELUDE: &str = "#![allow(warnings)]\nuse core::str::FromStr;\nfn id<T>(x: T) -> T { x }\nfn ty<T>(_: &T) -> &'static str { core::any::type_name::<T>() }\nmacro_rules! via_expr { ($e:expr) => { ruint::uint!($e) } }\nmacro_rules! via_lit { ($l:literal) => { ruint::uint!($l) } }\nmacro_rules! via_tt { ($($t:tt)*) => { ruint::uint!($($t)*) } }\n";
 
 /// One statement checking a VALID literal at run time. `whole` = the enclosing program is
 /// wrapped in a single `uint!{}` invocation (so the bare literal is used).
@@ -402,7 +407,7 @@ fn main() {
     let t0 = Instant::now();
     let spec = PropSpec {
         id: "C19",
-        rule_text: "generated programs: literals = base {decimal, 0x, 0o, 0b} x digit strings up to 300 digits (leading zeros, mixed-case hex, '_' anywhere after the first digit, optionally one invalid letter) x optional '_' x suffix {U,B}<bits>, bits biased to {0,1,2,7,8,63,64,65,127,128,129,256,4096} and 0..=300, values from {0,1,2^bits-1,2^bits,2^bits+1,2^(bits-1), random below 2^bits, one bit too long, too large by exactly one digit, small values in wide types}; each literal at nesting depth 0..4 (parens, blocks, arrays, tuples, calls, closures, const items), inside one whole-program uint!{} or per-literal uint!() / uint!{} / uint![]. A reference literal model classifies VALID(value) / REJECT. Positive programs: run-time comparison of the constant with the model's limbs and with from_str_radix of the same digits at the exact suffix width and type (Uint / Bits). Negative programs: every REJECT literal must carry a compile error; a line without one is recompiled alone and is a violation iff it builds. Pass-through programs: token soups of non-matching literals (suffixed ints, hex ending in B<digits>, floats, strings, chars, byte strings, identifiers U256/B8) nested in groups, metamorphic oracle uint!{E} == E in value (Debug) and type. Non-trivial: literal wider than one limb, or value in {2^bits-1, 2^bits, 2^bits+1}, or containing '_' / leading zeros, or rejected by exactly one digit; distinct by literal text.",
+        rule_text: "generated programs: literals = base {decimal, 0x, 0o, 0b} x digit strings up to 300 digits (leading zeros, mixed-case hex, '_' anywhere after the first digit, optionally one invalid letter) x optional '_' x suffix {U,B}<bits>, bits biased to {0,1,2,7,8,63,64,65,127,128,129,256,4096} and 0..=300, values from {0,1,2^bits-1,2^bits,2^bits+1,2^(bits-1), random below 2^bits, one bit too long, too large by exactly one digit, small values in wide types}; each literal at nesting depth 0..4 (parens, blocks, arrays, tuples, calls, closures, const items), inside one whole-program uint!{} or per-literal uint!() / uint!{} / uint![] / forwarded through macro_rules expr, literal and tt fragments. A reference literal model classifies VALID(value) / REJECT. Positive programs: run-time comparison of the constant with the model's limbs and with from_str_radix of the same digits at the exact suffix width and type (Uint / Bits). Negative programs: every REJECT literal must carry a compile error; a line without one is recompiled alone and is a violation iff it builds. Pass-through programs: token soups of non-matching literals (suffixed ints, hex ending in B<digits>, floats, strings, chars, byte strings, identifiers U256/B8) nested in groups, metamorphic oracle uint!{E} == E in value (Debug) and type. Non-trivial: literal wider than one limb, or value in {2^bits-1, 2^bits, 2^bits+1}, or containing '_' / leading zeros, or rejected by exactly one digit; distinct by literal text.",
         assumptions: vec![
             "rustc accept/reject and JSON diagnostics are trusted; num-bigint for the literal model",
             "only token shapes that reach the macro are generated (no 0b2 / 0o8 / decimal digits followed by e or E, which the lexer itself rejects or reads as floats)",
